@@ -333,3 +333,5 @@ def run(ctx, rep):
         rep.ob("R15.6", "%s: set_expiry receives seconds, not a pre-built deadline" % (fu_.qual.split(".", 2)[-1] if fu_ else "?"),
                not bad_, "`%s`" % A.norm(c_)[:60], ctx.loc(c_), kind="site", nontrivial=False)
     K.share(ctx, rep, "c14", lambda o: o.rule == "R14.2", "R15.6", floor=3)
+    from . import hygiene as H
+    H.private_state(ctx, rep, "R15.3", "rpyc.core.async_.AsyncResult")
